@@ -72,6 +72,16 @@ impl TimeZone {
             None
         };
 
+        // Every transition has to point at an existing local time type
+        if transitions
+            .iter()
+            .any(|transition| transition.local_time_type_index >= local_time_types.len())
+        {
+            return Err(TimeZoneError::InvalidTzFile(
+                "Transition refers to a local time type that does not exist",
+            ));
+        }
+
         // Without a footer rule every lookup needs a local time type
         if extra_rule.is_none() && local_time_types.is_empty() {
             return Err(TimeZoneError::InvalidTzFile("No local time types found"));
